@@ -589,6 +589,14 @@ class Gen:
                 return self.call('mul', fr[a][1], caller=fr)
             if f == 'mul' and fr.get(a, ('',))[0] == 'cell' and self.ctype[fr[a][1]] == 'u32':
                 return self.call('mulw', self.load(fr, a)[0], caller=fr)
+        m = re.fullmatch(r'([\w.\[\]\s]+?)\s*(\+|-|&|\||\^|<<|>>)=(?!=)(.*)', s, re.S)
+        if m:                                                     # compound assignment: x op= e  is  x = (x) op (e)
+            lhs = m.group(1).strip()
+            return self.stmt_(fr, '%s = (%s) %s (%s)' % (lhs, lhs, m.group(2), m.group(3).strip()))
+        m = re.fullmatch(r'(\+\+|--)\s*([\w.\[\]]+)|([\w.\[\]]+)\s*(\+\+|--)', s)
+        if m:
+            lhs = m.group(2) or m.group(3); op = (m.group(1) or m.group(4))[0]
+            return self.stmt_(fr, '%s = (%s) %s 1' % (lhs, lhs, op))
         m = re.fullmatch(r'([\w.\[\]\s]+?)=(?!=)(.*)', s, re.S)
         if m:
             key = self.lv(fr, m.group(1))
